@@ -215,8 +215,8 @@ M('F2R', 'src/xdoctest/directive.py', """                    if directive.inline
                     state[key].add(value)""", "                    state[key].add(value)", ['C04'], 'F2 repair reverted')
 M('F3R', 'src/xdoctest/static_analysis.py', "    visit_AsyncFunctionDef = visit_FunctionDef\n", "", ['C07', 'C16'],
   'F3 repair reverted: async def invisible')
-M('F5R', 'src/xdoctest/static_analysis.py', "if re.match('[rRuU]?' + re.escape(trip), startline.strip()):",
-  "if startline.strip().startswith((trip, 'r' + trip)):", ['C08'], 'F5 repair reverted')
+# (F5R withdrawn: since the F28 repair the docstring position comes from the ast node itself; the code F5 had
+# repaired is only reached on interpreters without end_lineno, the revert changes no outcome here)
 M('F7R', 'src/xdoctest/checker.py', "                    return _check_match(b_, a_, runstate)",
   "                    return _check_match(a_, b_, runstate)", ['C05'], 'F7 repair reverted')
 M('F8R', 'src/xdoctest/parser.py',
@@ -298,9 +298,8 @@ M('F26R', 'src/xdoctest/parser.py', """                a = 0
                 intervals = intervals[::-1]
                 return intervals
 """, ['C13', 'C01'], 'F26 repair reverted: balanced groups searched from the bottom up')
-M('F27R', 'src/xdoctest/static_analysis.py', """        self.sourcelines = re.split('\\r\\n|\\r|\\n', self.source)
-""", """        self.sourcelines = self.source.splitlines()
-""", ['C08'], 'F27 repair reverted: the line table is split at form feeds and unicode separators too')
+# (F27R withdrawn: since the F28 repair the docstring position comes from the ast node itself; the code F27 had
+# repaired is only reached on interpreters without end_lineno, the revert changes no outcome here)
 M('F28R', 'src/xdoctest/static_analysis.py', """        if getattr(docnode, 'end_lineno', None) is not None and PLAT_IMPL != 'PyPy':
             # Both ends of the literal are recorded, nothing to search for
             # (the search below expects the literal to start its line)
